@@ -713,6 +713,10 @@ class Merger:
                 "Merger::_insert_list:  Merging a list into a set.")
             mset = CommentedSet()
             for ele in rhs:
+                if isinstance(ele, (dict, list, set, CommentedSet)):
+                    raise MergeException(
+                        "Impossible to add non-Scalar Array elements to a"
+                        " Set.", insert_at)
                 mset.add(ele)
             merged_data = self._merge_sets(
                 lhs, mset, insert_at, NodeCoords(rhs, None, None))
